@@ -180,9 +180,10 @@ def plan():
     for (nt, nf) in ((1, 1), (2, 2), (2, 3), (3, 2), (3, 3), (1, 3)):
         for order in ("ft", "tf"):
             for kind in ("box", "interval"):
-                quick = (nt, nf) in ((2, 3), (2, 2)) or ((nt, nf) == (3, 2) and order == "tf" and kind == "box")
+                quick = ((nt, nf) == (2, 3) and kind == "box") or ((nt, nf, order) == (2, 2, "ft")) or (
+                    (nt, nf) == (3, 2) and order == "tf" and kind == "interval")
                 for second in (None, "after", "before"):
-                    qk = quick and (second is None or (nt, nf, order) == (2, 3, "ft"))
+                    qk = quick and (second is None or (nt, nf, order, kind, second) == (2, 3, "ft", "box", "after"))
                     obs.append(Ob("raster-%dx%d-%s-%s%s" % (nt, nf, order, kind, "-2nd" + second if second else ""),
                                   ob_raster, "real", 2400,
                                   dict(nt=nt, nf=nf, order=order, kind=kind, second=second),
